@@ -351,6 +351,14 @@ SessHalfMut == \/ Connect(c1, k1, FALSE, NoWill)
 SessHalfNext == steps < MaxSteps /\ IF steps < MaxSteps - 1 THEN SessHalfMut ELSE ApiPublish(<<"a">>, 1, FALSE, "x")
 SessHalfSpec == SessInit /\ [][SessHalfNext]_vars
 
+(* C07, effect at the acknowledgement: SUBSCRIBE, wide UNSUBSCRIBE (UNSUBACK awaited, no barrier), publish from elsewhere *)
+UnsubRaceNext == steps < MaxSteps /\
+  \/ Subscribe(c2, 1, << <<<<"a">>, 1>> >>)
+  \/ ((\E s \in subs : s.who = c2) /\ UnsubscribeWide(c2, 2, <<"a">>))
+  \/ ApiPublish(<<"a">>, 0, FALSE, "x")
+  \/ Publish(c1, <<"a">>, 0, FALSE, "y", 0, FALSE)
+UnsubRaceSpec == BothUp({<<"a">>}) /\ [][UnsubRaceNext]_vars
+
 (* C11 first packets: every way of being refused, followed by packets on the refused connection;
    witness c2 subscribed to '#', afterwards a probe of the retained store                  *)
 ANames == {<<"a">>}
